@@ -21,7 +21,7 @@ RULE = ('expiry-centred histories (populations of 1/99/100/101/250 items on one 
         'effect at one instant of its own [call, return] clock window and an item is deliverable only up to its expiry '
         'instant')
 DISTINCT = ('cells', 'expire_scenarios', 'concurrent_schedules_with_preemption', 'schedules')
-REQUIRED = ('phases_with_twin_keys', 'calls_judged', 'concurrent_programs', 'timed_schedules_checked', 'concurrent_rewrites_of_expired_rows', 'expire_calls_over_one_page', 'lookups_of_expired_items', 'lookups_of_live_items',
+REQUIRED = ('items_expiring_at_instant_zero', 'phases_with_twin_keys', 'calls_judged', 'concurrent_programs', 'timed_schedules_checked', 'concurrent_rewrites_of_expired_rows', 'expire_calls_over_one_page', 'lookups_of_expired_items', 'lookups_of_live_items',
             'lazy_cull_writes', 'fanout_histories', 'cache_histories', 'shared_instant_batches')
 ASSUMPTIONS = ('virtual clock replaces time.time inside diskcache.core and diskcache.fanout',
                'expiry instants are positive (ttl >= -1e6 s at epoch 1.7e9): non-positive instants are outside the domain',
@@ -95,6 +95,15 @@ def history(dc, sc, res, rng, kind, cfg, label, scale):
                 if rng.random() < 0.1 and not shared:
                     t = gen.pick(rng, [None, 0, -1.5, -1e6, gen.ttl_exact(gen.TICK), gen.ttl_exact(1e12)])
                 call('set', k, v, expire=t, tag='g' if i % 5 == 0 else None)
+            if rng.random() < 0.3:
+                # a time-to-live that lands the stored expiry exactly on instant zero (a falsy number, not "no expiry")
+                clock.frozen = True
+                instant = clock.now_peek()
+                call('set', 'zero-%d' % phase, 'z', expire=-instant)
+                call('set', 'before-the-epoch-%d' % phase, 'z', expire=-instant - 12345.0)      # ... or before it
+                if kind == 'cache':
+                    call('push', 'zq', prefix=gen.pick(rng, [None, 'q']), expire=-instant)
+                res.count('items_expiring_at_instant_zero')
             clock.frozen = False
             clock.advance(gen.TICK)
             if kind == 'cache' and rng.random() < 0.5:
